@@ -1,7 +1,8 @@
 (* Props/C13.v — property C13: keys and scales map degrees to in-key notes; the nearest note is nearest.
    Only the property theorems live here; each is closed by a lemma of Tonal/KeyProofs.v or by
    computation over the table generated from the source (Generated/Tables.v). *)
-From Isobar Require Import Base.Prelude Tonal.Key Tonal.KeyProofs Tonal.Progression Tonal.ProgressionProofs Generated.Tables.
+From Isobar Require Import Base.Prelude Tonal.Key Tonal.KeyProofs Tonal.Progression Tonal.ProgressionProofs Generated.Tables
+  Tonal.Held Tonal.HeldProofs.
 From Coq Require Import String.
 
 (* degree d maps to tonic + scale[d mod n] + octave * floor(d / n) *)
@@ -224,4 +225,170 @@ Example C13_session_nonvacuous :
               SRetune 0 5; SBuild 2 (mkKey 0 (mkScale [0; 3; 7] 12))] in
   key_contains (sk ops 4 1) 1 = true /\ key_contains (sk ops 4 0) 1 = false /\ key_contains (sk ops 2 0) 4 = true
   /\ key_contains (sk ops 4 0) 9 = true /\ nearest_note (sk ops 4 2) 2 = 3.
+Proof. vm_compute. repeat split. Qed.
+
+(** * Key and Scale OBJECTS that are held (by the user, by a tonal pattern, by an event stream) and re-tuned IN PLACE
+      while they are in use; scales reached through their NAME; copies.  Model: Tonal/Held.v - a store of Scale
+      objects, the registry Scale.dict and Key objects that refer to Scale objects; [key_of st slot] is the definition
+      the Key object in [slot] has in the store [st], to which every theorem above applies.  All statements hold for
+      EVERY store, i.e. after any history of constructions, assignments and queries. *)
+
+(* key.tonic = t / key.scale = <object>: the key has the new tonic (scale) and keeps the other attribute; every other
+   key of the process is what it was *)
+Theorem C13_held_retune : forall st slot k,
+  key_of st slot = Some k ->
+  (forall t, key_of (hstep st (HTonic slot t)) slot = Some (mkKey t (kscale k))
+             /\ forall sl, sl <> slot -> key_of (hstep st (HTonic slot t)) sl = key_of st sl)
+  /\ (forall oid s, scale_of st oid = Some s ->
+             key_of (hstep st (HRescale slot oid)) slot = Some (mkKey (tonic k) s)
+             /\ forall sl, sl <> slot -> key_of (hstep st (HRescale slot oid)) sl = key_of st sl).
+Proof.
+  intros st slot k H. split; [intros t; apply held_tonic; exact H|].
+  intros oid s Hs. apply held_rescale; assumption.
+Qed.
+Print Assumptions C13_held_retune.
+
+(* scale.semitones = l (also shuffle() / change(), which re-order the list in place) and scale.octave_size = o:
+   EVERY key that refers to this Scale object is re-tuned - it has its own tonic, the new semitones (octave size) and the
+   object's other attribute - and every key that refers to another Scale object is untouched *)
+Theorem C13_held_scale_object_retuned : forall st oid s slot ko,
+  scale_of st oid = Some s -> kobj_of st slot = Some ko ->
+  (forall l, key_of (hstep st (HSemis oid l)) slot =
+             if Nat.eqb oid (ko_scale ko) then Some (mkKey (ko_tonic ko) (mkScale l (osize s))) else key_of st slot)
+  /\ (forall o, key_of (hstep st (HOsize oid o)) slot =
+             if Nat.eqb oid (ko_scale ko) then Some (mkKey (ko_tonic ko) (mkScale (semis s) o)) else key_of st slot).
+Proof.
+  intros st oid s slot ko Hs Hk. split; [intros l; apply held_semis; assumption|intros o; apply held_osize; assumption].
+Qed.
+Print Assumptions C13_held_scale_object_retuned.
+
+(* whatever is done to OTHER Key objects and OTHER Scale objects (constructed - under any name -, copied, re-tuned)
+   never changes the definition of a key *)
+Theorem C13_held_frame : forall st o slot ko,
+  kobj_of st slot = Some ko -> op_slot o <> Some slot -> op_oid o <> Some (ko_scale ko) ->
+  key_of (hstep st o) slot = key_of st slot.
+Proof. exact held_frame. Qed.
+Print Assumptions C13_held_frame.
+
+(* no hidden state: the definition a key has after j operations of a session is determined by the constructions and
+   assignments among them, in order - not by which patterns exist, what was queried, or how many values were pulled *)
+Theorem C13_held_history_only : forall ops j slot,
+  xkey ops j slot = dk (hrun init_store (xmuts (firstn j ops))) slot.
+Proof. intros ops j slot. unfold xkey. rewrite xrun_store. reflexivity. Qed.
+Print Assumptions C13_held_history_only.
+
+(* a tonal pattern that holds Key / Scale objects: EVERY nextn call, in whatever store it happens, returns what a fresh
+   pattern of the class returns over the notes that are left and the PRESENT definitions of the objects that are left
+   (so C13_progression_aligned, C13_filter/snap/degree/rest_progression apply to it with the present definitions);
+   step i of the call asked the i-th remaining object as it is now, about the i-th remaining note; and the pattern has
+   moved on by exactly one note and one key per value returned *)
+Theorem C13_held_nextn_current : forall st n p,
+  map obs_out (fst (hp_nextn st n p)) = tonal_nextn (tfn_step (hp_f p)) n (mkT (hp_mel p) (ksrc_now st (hp_keys p)))
+  /\ (forall i k x y, nth_error (fst (hp_nextn st n p)) i = Some (k, x, y) ->
+        nth_error (hp_mel p) i = Some x /\ option_map (oref_key st) (kref_nth (hp_keys p) i) = Some k
+        /\ y = tfn_step (hp_f p) k x)
+  /\ snd (hp_nextn st n p) = mkHP (hp_f p) (skipn (List.length (fst (hp_nextn st n p))) (hp_mel p))
+                                  (kref_skip (List.length (fst (hp_nextn st n p))) (hp_keys p)).
+Proof.
+  intros st n p. split; [apply hp_nextn_out|]. split; [apply hp_nextn_obs|]. apply (hp_nextn_state st n p).
+Qed.
+Print Assumptions C13_held_nextn_current.
+
+(* over a whole session: after ANY operations (objects built and re-tuned, other patterns created and pulled, this
+   pattern pulled in several calls) a pattern stands exactly as many notes and keys further as it has returned values *)
+Theorem C13_held_positions : forall ops s pid p,
+  pat_of s pid = Some p -> existsb (opens pid) ops = false ->
+  pat_of (xrun s ops) pid =
+  Some (mkHP (hp_f p) (skipn (xproduced s ops pid) (hp_mel p)) (kref_skip (xproduced s ops pid) (hp_keys p))).
+Proof. exact xrun_positions. Qed.
+Print Assumptions C13_held_positions.
+
+(* PFilterByKey on a held key: a note that comes out is the note that went in and is in the key AS IT IS NOW; a note in
+   the present key passes, any other becomes a rest, a rest stays a rest *)
+Theorem C13_held_filter : forall st n p i k x y,
+  hp_f p = FFilter -> nth_error (fst (hp_nextn st n p)) i = Some (k, x, y) ->
+  option_map (oref_key st) (kref_nth (hp_keys p) i) = Some k
+  /\ (forall v, y = Some v -> x = Some v /\ key_contains k v = true)
+  /\ (forall v, x = Some v -> y = if key_contains k v then Some v else None)
+  /\ (x = None -> y = None).
+Proof.
+  intros st n p i k x y Hf H. destruct (hp_nextn_obs st n p i k x y H) as (_ & B & C).
+  rewrite Hf in C. cbn [tfn_step] in C. split; [exact B|]. subst y. split.
+  - intros v E. apply filter_step_some in E. exact E.
+  - split; [intros v ->; reflexivity|intros ->; reflexivity].
+Qed.
+Print Assumptions C13_held_filter.
+
+(* PNearestNoteInKey on a held key: the output is in the key as it is now and no note of that key is strictly closer *)
+Theorem C13_held_snap : forall st n p i k v y,
+  hp_f p = FSnap -> nth_error (fst (hp_nextn st n p)) i = Some (k, Some v, y) ->
+  0 < osize (kscale k) -> semis (kscale k) <> [] ->
+  option_map (oref_key st) (kref_nth (hp_keys p) i) = Some k
+  /\ exists w, y = Some w /\ key_contains k w = true
+       /\ (forall z, key_contains k z = true -> Z.abs (w - v) <= Z.abs (z - v))
+       /\ (key_contains k v = true -> w = v).
+Proof.
+  intros st n p i k v y Hf H Ho Hne. destruct (hp_nextn_obs st n p i k _ y H) as (_ & B & C).
+  rewrite Hf in C. cbn [tfn_step snap_step option_map] in C. split; [exact B|].
+  exists (nearest_note k v). destruct (C13_nearest k v Ho Hne) as [P [Q R]]. repeat split; assumption.
+Qed.
+Print Assumptions C13_held_snap.
+
+(* PDegree on a held key or scale: degree d gives the d-th degree of the object as it is now *)
+Theorem C13_held_degree : forall st n p i k d y,
+  hp_f p = FDegree -> nth_error (fst (hp_nextn st n p)) i = Some (k, Some d, y) ->
+  option_map (oref_key st) (kref_nth (hp_keys p) i) = Some k
+  /\ y = Some (key_get k d)
+  /\ (valid_scale (kscale k) = true -> key_contains k (key_get k d) = true).
+Proof.
+  intros st n p i k d y Hf H. destruct (hp_nextn_obs st n p i k _ y H) as (_ & B & C).
+  rewrite Hf in C. split; [exact B|]. split; [exact C|]. apply C13_degree_in_key.
+Qed.
+Print Assumptions C13_held_degree.
+
+(* scales reached through their NAME: a user-defined scale is registered when it is constructed (the first registration
+   of a name wins and is never replaced by constructing further scales); Key(t, name), Key("<note> <name>"),
+   Key(t, Scale.byname(name)) and an event's key string give a key with the registered scale's semitones AND octave size;
+   the names of the library's scales stand for the generated table from the start *)
+Theorem C13_named_scale : forall st slot t name s,
+  (forall oid, reg_of st name = None -> reg_scale (hstep st (HScale oid name s)) name = Some s)
+  /\ (forall oid name' s' o, reg_of st name = Some o -> o <> oid ->
+        reg_scale (hstep st (HScale oid name' s')) name = reg_scale st name)
+  /\ (reg_scale st name = Some s -> key_of (hstep st (HKeyNamed slot t name)) slot = Some (mkKey t s))
+  /\ reg_scale init_store name =
+     match find (fun ns => String.eqb (fst ns) name) builtin_scales with Some ns => Some (snd ns) | None => None end.
+Proof.
+  intros st slot t name s. split; [intros oid H; apply held_register; exact H|].
+  split; [intros oid name' s' o H Hne; eapply held_registered_stays; eassumption|].
+  split; [apply held_key_named|apply init_reg_scale].
+Qed.
+Print Assumptions C13_named_scale.
+
+(* copies: a copy of a Scale object has the same semitones and the same octave size; a shallow or deep copy of a Key
+   object has the definition of the original - so every degree, membership and nearest-note answer is the same *)
+Theorem C13_copies : forall st,
+  (forall oid src s, scale_of st src = Some s ->
+     scale_of (hstep st (HScaleCopy oid src)) oid = Some s
+     /\ (oid <> src -> scale_of (hstep st (HScaleCopy oid src)) src = Some s))
+  /\ (forall slot src k, key_of st src = Some k -> key_of (hstep st (HKeyCopy slot src)) slot = Some k)
+  /\ (forall slot src oid k, key_of st src = Some k -> key_of (hstep st (HKeyDeep slot src oid)) slot = Some k).
+Proof.
+  intros st. split; [intros oid src s; apply held_scale_copy|].
+  split; [intros slot src k; apply held_key_copy|intros slot src oid k; apply held_key_deep].
+Qed.
+Print Assumptions C13_copies.
+
+(* non-vacuity: one PFilterByKey over one held key; the key is transposed, then its Scale object is given other
+   semitones, between calls of nextn on the same pattern object; a 19-step scale is reached by its name and copied *)
+Example C13_held_nonvacuous :
+  let ops := [XMut (HScale 100 "u" (mkScale [0; 2; 4; 5; 7; 9; 11] 12)); XMut (HKey 0 0 100);
+              XOpen 0 (mkHP FFilter [Some 60; Some 61; Some 62; Some 61; Some 62] (RConst (OKey 0)));
+              XNext 0 2; XMut (HTonic 0 1); XNext 0 1; XMut (HSemis 100 [0; 1]); XNext 0 5;
+              XMut (HScale 101 "nineteen" (mkScale [0; 3; 6; 8; 11; 14; 17] 19)); XMut (HKeyNamed 1 2 "nineteen");
+              XMut (HScaleCopy 102 101); XMut (HKey 2 2 102); XMut (HKeyNamed 3 9 "pelog")] in
+  map obs_out (xout ops 3) = [Some 60; None] /\ map obs_out (xout ops 5) = [None]
+  /\ map obs_out (xout ops 7) = [Some 61; Some 62]
+  /\ xkey ops 8 0 = mkKey 1 (mkScale [0; 1] 12)
+  /\ key_get (xkey ops 10 1) 7 = 21 /\ key_get (xkey ops 13 2) (-1) = 0 /\ xkey ops 13 2 = xkey ops 13 1
+  /\ xkey ops 13 3 = mkKey 9 (mkScale [0; 1; 3; 7; 8] 12).
 Proof. vm_compute. repeat split. Qed.
